@@ -673,6 +673,61 @@ theorem mi_to_nested_row_order_irrelevant [DecidableEq ν] (M M' : MI ν α) (k 
     fromMIToNested M' (some M.inst) k = fromMIToNested M (some M.inst) k :=
   fromMIToNested_rowOrder M M' k h1 h2 h3 hne hr hr' hids hxs
 
+/-- `from_multi_index_to_3d_numpy` (since fix 319b294) does not depend on how the instances are interleaved
+either: same instances in the same order of first appearance, same number of distinct time labels, every
+instance's own rows in the same order ⇒ same array -/
+theorem mi_to_arr3_row_order_irrelevant (M M' : MI ν α)
+    (h1 : M'.inst = M.inst) (h2 : M'.time = M.time) (h3 : M'.names = M.names)
+    (hne : M.inst ≠ M.time)
+    (hids : (M'.rows.map (·.1.1)).eraseDups = (M.rows.map (·.1.1)).eraseDups)
+    (hT : ((M'.rows.map (·.1.2)).eraseDups).length = ((M.rows.map (·.1.2)).eraseDups).length)
+    (hxs : ∀ id, xsCol (M'.rows.map (·.1.1)) id (M'.rows.map (·.2))
+                = xsCol (M.rows.map (·.1.1)) id (M.rows.map (·.2))) :
+    fromMITo3d M' (some M.inst) (some M.time) = fromMITo3d M (some M.inst) (some M.time) :=
+  fromMITo3d_rowOrder M M' h1 h2 h3 hne hids hT hxs
+
+/-- every path yields the direct conversion, for ANY row order: a multi-index frame `M'` that holds the
+panel `X` (instance identifiers `labels`: distinct, any order) with its rows interleaved in any way — same
+level / column names as the canonical frame, instances first appearing in the panel's order, every
+instance's rows in time order — converts to `X` directly, and multi-index → nested → 3-D array gives the
+same `X` -/
+theorem mi_any_row_order_nested_arr3_eq_direct [DecidableEq ν] {n c t : Nat} {X : Arr3 α}
+    (hX : Rect3 n c t X) (hn : 0 < n) (hc : 0 < c) (ht : 0 < t) (i tm : String) (hne : i ≠ tm)
+    (names : List ν) (hl : names.length = c) (hnd : names.Nodup) (k : Bool) (labels : List Int)
+    (hll : labels.length = n) (hlnd : labels.Nodup) (M' : MI ν α)
+    (h1 : M'.inst = i) (h2 : M'.time = tm) (h3 : M'.names = names)
+    (hr' : ∀ r ∈ M'.rows.map (·.2), r.length = c)
+    (hids : (M'.rows.map (·.1.1)).eraseDups = labels)
+    (hT : ((M'.rows.map (·.1.2)).eraseDups).length = t)
+    (hxs : ∀ id, xsCol (M'.rows.map (·.1.1)) id (M'.rows.map (·.2))
+                = xsCol ((miOfL i tm names labels X).rows.map (·.1.1)) id ((miOfL i tm names labels X).rows.map (·.2))) :
+    fromMITo3d M' (some i) (some tm) = .ok X ∧
+    (fromMIToNested M' (some i) k).bind fromNestedTo3d = .ok X := by
+  have hidsC : ((miOfL i tm names labels X).rows.map (·.1.1)).eraseDups = labels :=
+    instIds_relabel hX hn hc ht labels hll hlnd
+  have hTC : (((miOfL i tm names labels X).rows.map (·.1.2)).eraseDups).length = t := by
+    show ((((relabelInstances labels (miRows X)).map (·.1.2))).eraseDups).length = t
+    rw [relabel_time, timeIds_miRows hX hn hc]; simp
+  have hrC : ∀ r ∈ (miOfL i tm names labels X).rows.map (·.2), r.length = (miOfL i tm names labels X).names.length := by
+    intro r hr
+    have hr2 : r ∈ (miRows X).map (·.2) := by
+      have : (miOfL i tm names labels X).rows.map (·.2) = (miRows X).map (·.2) := relabel_vals _ _
+      rw [this] at hr; exact hr
+    obtain ⟨r0, hr0, rfl⟩ := List.mem_map.mp hr2
+    show r0.2.length = names.length
+    rw [hl]; exact miRows_rowsLen hX hn hc r0 hr0
+  constructor
+  · have := fromMITo3d_rowOrder (miOfL i tm names labels X) M' h1 h2 h3 hne (hids.trans hidsC.symm)
+      (hT.trans hTC.symm) hxs
+    rw [show (miOfL i tm names labels X).inst = i from rfl, show (miOfL i tm names labels X).time = tm from rfl] at this
+    rw [this, fromMITo3d_labelled hX hn hc ht i tm hne names hl labels hll hlnd]
+  · have := fromMIToNested_rowOrder (miOfL i tm names labels X) M' k h1 h2 h3 hne hrC
+      (by intro r hr; show r.length = names.length; rw [hl]; exact hr' r hr) (hids.trans hidsC.symm) hxs
+    rw [show (miOfL i tm names labels X).inst = i from rfl] at this
+    rw [this, fromMIToNested_labelled hX hn hc ht i tm hne names hl hnd k labels hll hlnd]
+    simp only [Except.bind]
+    exact fromNestedTo3d_ok hX hn hc names hl k
+
 /-! ### non-vacuity: concrete panels / frames meeting the hypotheses -/
 
 -- countdown time labels: the rows keep the cells' order and carry the cells' labels
@@ -683,9 +738,9 @@ example : fromNestedToMITx none [2, 1, 0] (nestedOf [Name.s "a"] false ([[[5, 6,
 example : fromMIToNested (⟨"case", "t", [Name.s "a"], [((0, 0), [1]), ((1, 0), [3]), ((0, 1), [2]), ((1, 1), [4])]⟩ : MI Name Nat)
       (some "case") false
     = fromMIToNested (miOf "case" "t" [Name.s "a"] ([[[1, 2]], [[3, 4]]] : Arr3 Nat)) (some "case") false := by rfl
--- … while the positional `from_multi_index_to_3d_numpy` does not (finding m3:row-order-ignored)
+-- … and so does `from_multi_index_to_3d_numpy` since fix 319b294 (was [[[1, 3]], [[2, 4]]]: regression witness of m3:row-order-ignored)
 example : fromMITo3d (⟨"case", "t", [Name.s "a"], [((0, 0), [1]), ((1, 0), [3]), ((0, 1), [2]), ((1, 1), [4])]⟩ : MI Name Nat)
-      (some "case") (some "t") = .ok [[[1, 3]], [[2, 4]]] := by rfl
+      (some "case") (some "t") = .ok [[[1, 2]], [[3, 4]]] := by rfl
 
 
 example : Rect3 2 2 3 ([[[1, 2, 3], [4, 5, 6]], [[7, 8, 9], [10, 11, 12]]] : Arr3 Nat) := by
